@@ -23,6 +23,7 @@ T = {
     "T10": "T10 shim memmap2: map(&file) yields the file's content at the time of the call; a mapping never changes afterwards",
     "T11": "T11 bincode as an abstract codec: what is written for an entry is determined by (tstamp, key, value) resp. (tstamp, len, pos, key); its length depends only on the entry (enc_len); deserialize_from consumes exactly one encoding; the serde derives of DataFileEntry / HintFileEntry are replaced by trusted view functions",
     "T12": "T12 the World (prelude/store_prelude.rs): an entry-level model of the store directory written for this verification -- create_new+append creates a fresh empty file or fails, append extends a file at its end or fails leaving a possibly torn tail, flush moves buffered records into the file, remove_file removes one whole file, open/metadata/sorted_fileids read it; LogWriter::new / LogIterator::new (lseek on a regular file) do not fail; utils::{datafile_name,hintfile_name,sorted_fileids,timestamp} are stubs (format!, read_dir, chrono)",
+    "T12S": "T12S durability in the World: File::sync_all / LogWriter::sync set `synced` of that one file to its current record count on Ok (and never beyond it on Err); append / flush never change `synced`; BufWriter::get_ref returns the file the writer was created on",
     "TLOG": "in unit store the World-level contracts of the log.rs API (contracts/log.spec) are ASSUMED (R-stub-body); unit log verifies the bodies of log.rs only against local byte-level contracts (contracts/log_local.spec): counter arithmetic, slice bounds after re-mapping, cache transparency, open flags, (pos,len) bookkeeping, flush before acknowledgement. The refinement between the two levels is argued, not machine-checked",
     "TARC": "R-arc: Arc<Context>/Arc<Mutex<Writer>>/Arc<ArrayQueue<Reader>> are read as single owners; that Writer, Readers and Handle share ONE Context (wired by the unverified Bitcask::open) is assumed. No interleaving is explored",
     "T13s": "T13 environment bounds assumed as World well-formedness: every file shorter than 2^62 bytes, fewer than 2^48 records per file, file ids below 2^62",
@@ -138,6 +139,16 @@ PROPS = {
             "fault model: every World operation may fail nondeterministically (one or many faults, any position); a failed append may leave a torn tail, a failed flush a partial record",
             "proved at every error exit of write / put / delete / new_active_datafile: Index, WriterWf, StatsWeak, the model is unchanged, and after a restart the failed operation is applied or not applied, no other key affected",
             "merge: only its Ok exits are under contract so far; error exits of merge are not claimed (see DESIGN.md, D8)",
+        ],
+    },
+    "C09": {
+        "units": ["store"], "label_prefixes": ["C09."], "level": "proof",
+        "trusted": ["T1", "T4", "T8", "T11", "T12", "T12S", "T13", "T13s", "TLOG", "TARC", "RW", "DERIVE"],
+        "assumptions": [
+            "failure model (from the property): per file, any suffix written after that file's last completed fsync may be missing after a power loss; creations and removals already issued persist. In the World every data / hint file carries `synced`, the number of its records covered by the last successful fsync; all_synced(w) says nothing is exposed: every record of every file is covered. theorem_power_loss (C09.power_loss, pure lemma): if all_synced(w), every directory a power loss can leave has the same records, hence the same spec_recover (C02's recovery function) -- every acknowledged write is still there",
+            "proved on the code: with sync = Always, Writer::write / put / delete re-establish all_synced on every Ok exit (append, then LogWriter::sync; a rollover creates an empty file) -- C09.write/put/delete.synced; new_active_datafile keeps it; Writer::merge re-establishes it on Ok (C09.merge.synced) and, stronger, every unlink inside merge happens in an all_synced directory (C09.unlink.all_durable, a ghost checkpoint in front of each fs::remove_file): the merged copies and their hint records are fsync'ed before any input file is removed. Merge output files are synced unconditionally (fix D12), so C09.merge.* hold for every sync strategy whenever the merge starts from an all_synced directory",
+            "NOT covered: power loss in the MIDDLE of an operation (between its system calls) is C03's territory; only operation boundaries and the unlink points are covered. Directory-entry durability (fsync of the directory after create / unlink) is assumed by the property's failure model. The Handle / background-thread layer adds nothing (it only calls these functions); sync = Interval / None give no guarantee and none is claimed",
+            "LogWriter::sync is the one-liner `self.0.get_ref().sync_all()`; its World-level contract (C09.sync.durable: the writer's own file becomes fully synced) is ASSUMED in unit store (TLOG) -- the byte-level unit log has no notion of durability, so that body is covered only by the strace-based bounded search (thorough tier / witness), which watches the real fsync calls",
         ],
     },
     "C05": {
